@@ -163,6 +163,14 @@ def _run_real(built, state: Dict[str, Any]) -> None:
         shutil.rmtree(d, ignore_errors=True)
 
 
+BATCH_LINE = b'[{"jsonrpc":"2.0","method":"notifications/message","params":{"level":"info","data":1}}]\n'
+
+
+def _inbound(case: Dict[str, Any]) -> Dict[int, int]:
+    """item index -> scheduler turns after handing the item to the writer at which a server batch arrives (-1: just before)"""
+    return {(e if isinstance(e, int) else e[0]): (-1 if isinstance(e, int) else e[1]) for e in case.get("inbound", [])}
+
+
 def check(case: Dict[str, Any]) -> Outcome:
     from chuk_mcp.transports.stdio.stdio_client import StdioClient
 
@@ -177,13 +185,18 @@ def check(case: Dict[str, Any]) -> Outcome:
             client = StdioClient(stdio_params())
             async with client:
                 _r, w = client.get_streams()
-                inbound = case.get("inbound", [])
+                inbound = _inbound(case)
                 if inbound:
                     client.set_protocol_version("2025-06-18")  # batches from the server are answered with -32600 on stdin
                 for k_, (obj, _) in enumerate(built):
-                    if k_ in inbound:
-                        procs[0].stdout.feed(b'[{"jsonrpc":"2.0","method":"notifications/message","params":{"level":"info","data":1}}]\n')
+                    if inbound.get(k_) == -1:
+                        procs[0].stdout.feed(BATCH_LINE)
                     await w.send(obj)
+                    if inbound.get(k_, -1) >= 0:
+                        # the server's batch arrives d scheduler turns into the write of item k
+                        for _y in range(inbound[k_]):
+                            await asyncio.sleep(0)
+                        procs[0].stdout.feed(BATCH_LINE)
                 await asyncio.sleep(0.05)
                 state["closed_before"] = procs[0].stdin.closed
                 await w.aclose()
@@ -219,7 +232,7 @@ def check(case: Dict[str, Any]) -> Outcome:
     if b"\r" in data:
         out.fail("raw-carriage-return-in-output", repr(data[:200]))
     lines = data.split(b"\n")[:-1] if data else []
-    n_inbound = len([k for k in case.get("inbound", []) if k < len(built)]) if not case.get("real") else 0
+    n_inbound = len([k for k in _inbound(case) if k < len(built)]) if not case.get("real") else 0
     if n_inbound:
         # the reader task answers each inbound batch with one -32600 line on the same stdin; every line
         # must still be whole, and the remaining lines are the messages
@@ -331,7 +344,8 @@ def cases(draw):
                 tgt["deep"] = {"$deep": draw(st.sampled_from([100, 260, 300]))}
     case: Dict[str, Any] = {"items": its}
     if draw(st.integers(0, 3)) == 0:
-        case["inbound"] = sorted(set(draw(st.lists(st.integers(0, len(its) - 1), min_size=1, max_size=3))))
+        ks = sorted(set(draw(st.lists(st.integers(0, len(its) - 1), min_size=1, max_size=3))))
+        case["inbound"] = [[k, draw(st.sampled_from([-1, 0, 1, 2, 3, 5]))] for k in ks]
     return case
 
 
